@@ -1064,6 +1064,7 @@ def c17_closure(tier, seed):
     # two rules that give the same new species from one reactant; seeds that carry an atom above its default valence (the valence
     # filter applies to generated species: a seed is always part of the answer)
     rulesets += [['CH', 'OH']]
+    seedsets += [['CC', 'CC'], ['C', 'CC', 'C']]          # the same species given twice among the seeds
     seedsets += [['[C-]#[O+]'], ['C[N+](=O)[O-]'], ['CS(C)=O', 'C']] if tier != 'quick' else [['[C-]#[O+]', 'C'], ['C[N+](=O)[O-]']]
     viol, n, distinct, samples = [], 0, 0, []
     pt = GetPeriodicTable()
